@@ -4,9 +4,10 @@ import random
 from .core import b2l, n2l
 
 EXTRA_ORDERS = [2 ** 53 - 111, 2 ** 53 + 5, 2 ** 53 + 6, 2 ** 64 - 59, 2 ** 64 + 13, 2 ** 64 + 14,
-                2 ** 106 + 2 ** 53 + 1, 2 ** 160 + 7, 2 ** 161 - 8, 2 ** 600 - 95, 2 ** 600 + 188,
-                # raw signatures longer than 256 bytes (lengths beyond any small-integer cache, DER long-form lengths of 2 bytes)
-                2 ** 1024 + 643, 2 ** 2040 - 9]
+                2 ** 106 + 2 ** 53 + 1, 2 ** 160 + 7, 2 ** 161 - 8, 2 ** 600 - 95, 2 ** 600 + 188]
+# raw signatures longer than 256 bytes (lengths beyond any small-integer cache, DER long-form lengths of 2 bytes); C12 only:
+# TLC's byte-sequence subtraction for the low-S reflection is too slow at this size for the every-change tier
+HUGE_ORDERS = [2 ** 1024 + 643, 2 ** 2040 - 9]
 
 TRACE_CFG = "INIT Init\nNEXT Next\nCHECK_DEADLOCK FALSE\n"
 
